@@ -104,7 +104,7 @@ def v1Body (min : Int) (k : MSR → Except Fail (MSR × Msg)) (r : MSR) : Except
   | [] => .error (.desync, r)
   | l :: ls =>
     if l.codec then
-      -- discardN(4), readBytesWith(decompress), extractOffset, markRead, push, continue
+      -- discardBytes() (the wrapper's key), readBytesWith(decompress), extractOffset, markRead, push, continue
       match l.toks with
       | .zv _ inner :: ts =>
         let r1 := { r with stack := { l with toks := ts } :: ls }
